@@ -240,6 +240,13 @@ impl Prop for C15 {
       Leg { name: "large values (4 KiB - 1 MiB, sizes around powers of two)", source: Cases::Generated(Box::new(large_strategy), 600, 12_000) },
     ]
   }
+  fn stages(&self, ctx: &Ctx) -> Vec<Stage> {
+    if ctx.tier == Tier::Thorough {
+      crate::fuzz::campaigns("C15", &["json"], ctx)
+    } else {
+      vec![]
+    }
+  }
   fn check(&self, case: &Case) -> CheckResult {
     let r = guard(|| -> Result<CaseInfo, String> {
       match case {
@@ -377,6 +384,17 @@ impl Prop for C15 {
 
 
 fn check_value(f: &Fields) -> CheckResult {
+  // call history: now and then the parsers see rejected documents first (state must not leak
+  // from a failed parse into the next one on the same thread)
+  if f.mappings.len() % 2 == 0 {
+    let a = SourceMap::from_json("{\"mappings\":");
+    let b = SourceMap::from_slice(b"[1,2");
+    let c = SourceMap::from_reader(&b"{\"mappings\":nul"[..]);
+    let d = SourceMap::from_slice(b"{\"names\":[]}");
+    if a.is_ok() || b.is_ok() || c.is_ok() || d.is_ok() {
+      return Err("a malformed document (or one without mappings) was accepted".into());
+    }
+  }
       let mut m = SourceMap::new(f.mappings.clone(), f.sources.clone(), f.contents.clone(), f.names.clone());
       m.set_file(f.file.clone());
       m.set_source_root(f.root.clone());
